@@ -399,9 +399,11 @@ def run_check(prop, tier, only=None, keep=False, jobs=None):
             for ob in obs:
                 if ob.get("native") or ob.get("scan"):
                     continue
-                groups.setdefault((ob.get("features", "default"), ob.get("checks", "nooverflow")), []).append(ob)
+                # miters (cvc5) get their own invocation: they close in seconds or not at all, and a refuted-by-time-out
+                # miter must reach the failing-input search quickly instead of waiting for the slowest leaf obligation
+                groups.setdefault((ob.get("features", "default"), ob.get("checks", "nooverflow"), "cvc5" in ob.get("backend", "")), []).append(ob)
             results = {}
-            for (feat, checks), g in groups.items():
+            for (feat, checks, _is_miter), g in sorted(groups.items(), key=lambda kv: (not kv[0][2], kv[0][0], kv[0][1])):
                 results.update(run_group(sc, feat, checks, g, jobs))
             for ob in obs:
                 row = {"obligation": ob["name"], "class": ob["cls"], "tier": ob["tier"], "functions": ob.get("functions", []),
